@@ -83,10 +83,18 @@ class Ctx:
         r = self.feas_cache.get(key)
         if r is None:
             self.feas_calls += 1
-            res = smt.check_sat(pc, timeout_ms=self.config.get("feas_timeout_ms", 3000), use_cvc5=False)
+            res = smt.check_sat(pc, timeout_ms=self.config.get("feas_timeout_ms", 400), use_cvc5=False)
             r = res.status != "unsat"
             self.feas_cache[key] = r
         return r
+
+    def refute_or_oos(self, st, msg):
+        """Called before giving up on a branch: if the branch is in fact unreachable (decided with a
+        generous budget) it is pruned (returns True), otherwise the function is out of subset."""
+        res = smt.check_sat(st.pc, timeout_ms=self.config.get("oos_timeout_ms", 5000), use_cvc5=False)
+        if res.status == "unsat":
+            return True
+        raise OutOfSubset(msg)
 
     def anchor(self, base):
         n = self.anchors.get(base, 0) + 1
@@ -113,6 +121,19 @@ def assume(ctx, st, cond):
     if not ctx.feasible(s2.pc):
         return None
     return s2
+
+
+def add_lemma(st, f):
+    """A fact already established (proved precondition, definition): available to later obligations
+    on this path, but not a branch condition (excluded from loop-body guards)."""
+    st.pc.append(f)
+    st.ghost["lemma_ids"] = st.ghost.get("lemma_ids", frozenset()) | {f.get_id()}
+
+
+def add_def(st, f):
+    """Definitional fact about a fresh skolem term created at this point (may mention loop indices)."""
+    add_lemma(st, f)
+    st.ghost["defs"] = st.ghost.get("defs", ()) + ((f, st.loopvars),)
 
 
 def branch(ctx, st, cases):
@@ -169,6 +190,22 @@ def sentinel_axioms(names):
 def _sentinel_provider(names):
     if any(n.startswith("sentinel_") for n in names):
         return sentinel_axioms(names)
+    return []
+
+
+_EMPTY_DICT = z3.Const("empty_dict_literal", V)
+
+
+def empty_dict():
+    return SV(_EMPTY_DICT)
+
+
+@smt.register_axioms
+def _empty_dict_axioms(names):
+    if "empty_dict_literal" in names:
+        return [kind(_EMPTY_DICT) == K_DICT, dlen(_EMPTY_DICT) == 0, smt.isjson(_EMPTY_DICT),
+                z3.ForAll([z3.String("s")], z3.Not(dhas(_EMPTY_DICT, z3.String("s"))),
+                          patterns=[dhas(_EMPTY_DICT, z3.String("s"))])]
     return []
 
 
@@ -745,6 +782,8 @@ class Interp:
             r = hook(self, node, st)
             if r is not None:
                 return r
+        if not node.keys:
+            return [(st, empty_dict())]
         keys = []
         for k in node.keys:
             if not (isinstance(k, ast.Constant) and isinstance(k.value, str)):
